@@ -10,7 +10,8 @@
 (*   tmp      partial function  index -> [owner, data]: the files tmp_<index>   *)
 (*            present in the directory; owner is a writer or "stale" (left by   *)
 (*            some earlier process), data = the file is not empty               *)
-(*   wr[w]    the writer: pc, i (temp index being tried / held), acc = bytes    *)
+(*   wr[w]    the writer: pc, i (the temp name it holds: bound when its          *)
+(*            exclusive open succeeds; names are numbers >= 1), tried, acc = bytes *)
 (*            the body handed to the file object, raw = bytes that reached the  *)
 (*            file system, ended = the body returned normally, err, lossy = a   *)
 (*            raw write failed (accepted bytes may be missing), cerr = closing  *)
@@ -20,7 +21,7 @@
 (* event  e = [w, op, res, n, i]  one file-system operation boundary or one     *)
 (*            step of the caller's body                                         *)
 (*   mkdir   res ok|exists|fault          Path.mkdir(parents, exist_ok)          *)
-(*   open    i, res ok|exists|fault       exclusive create of tmp_i              *)
+(*   open    i, res ok|exists|fault       exclusive create of the file named i   *)
 (*   bcall   n                            body hands n bytes to the file object  *)
 (*   write   n, res ok|fault              n bytes reach the file (raw write)     *)
 (*   endbody / bodyerr                    body returns / raises                  *)
@@ -39,7 +40,8 @@ Holding == {"body", "closing", "renaming", "unlinking"}   \* owns a temp file it
 \* round = how often this writer object has been entered; base = what its destination held when
 \* the current round began; the complete contents of round k are the class NewName(k)
 NewWriter == [pc |-> "idle", i |-> 0, acc |-> 0, raw |-> 0, ended |-> FALSE, err |-> "none",
-              lossy |-> FALSE, cerr |-> FALSE, leak |-> FALSE, ret |-> FALSE, round |-> 1, base |-> "absent"]
+              lossy |-> FALSE, cerr |-> FALSE, leak |-> FALSE, ret |-> FALSE, round |-> 1, base |-> "absent",
+              tried |-> {}, mkf |-> FALSE]
 NewName(k) == IF k = 1 THEN "new" ELSE IF k = 2 THEN "new2" ELSE "new3"
 
 HasTmp(st, k) == k \in DOMAIN st.tmp
@@ -58,14 +60,18 @@ Guard(st, e) ==
     ELSE IF r.ret THEN "returned"
     ELSE IF e.res = "fault" /\ st.faults = 0 THEN "fault.budget"
     ELSE CASE e.op = "mkdir" ->
-                IF r.pc # "idle" THEN "mkdir.pc"
+                \* (whether and how often the directory is made sure of is the writer's business)
+                IF r.pc \notin {"idle", "open"} THEN "mkdir.pc"
                 ELSE IF e.res = "ok" /\ st.dir THEN "mkdir.res"
                 ELSE IF e.res = "exists" /\ ~st.dir THEN "mkdir.res"
                 ELSE IF e.res \notin {"ok", "exists", "fault"} THEN "mkdir.res"
                 ELSE ""
            [] e.op = "open" ->
-                IF r.pc # "open" THEN "open.pc"
-                ELSE IF e.i # r.i THEN "open.name"          \* names are tried in order 1, 2, ...
+                \* the temp is ANY name in the destination's directory that is not a destination (e.i >= 1:
+                \* the harness numbers such names); which one, and in which order names are tried, is free
+                IF r.pc \notin {"idle", "open"} THEN "open.pc"
+                ELSE IF ~st.dir THEN "open.nodir"
+                ELSE IF e.i < 1 THEN "open.place"
                 ELSE IF e.res = "exists" /\ ~HasTmp(st, e.i) THEN "open.res"
                 ELSE IF e.res = "ok" /\ HasTmp(st, e.i) THEN "open.exclusive"   \* never opens an existing file
                 ELSE IF e.res \notin {"ok", "exists", "fault"} THEN "open.res"
@@ -99,9 +105,9 @@ Guard(st, e) ==
                 ELSE IF e.res \notin {"ok", "noent", "fault"} THEN "unlink.res"
                 ELSE ""
            [] e.op = "end" ->
-                IF r.pc \notin {"done", "failed"} THEN "end.pc"
-                ELSE IF (e.res = "ok") # (r.pc = "done") THEN "end.outcome"
-                ELSE ""
+                \* (how the outcome is reported to the caller is not part of the property; a failed mkdir of
+                \* an existing directory may be ignored or reported)
+                IF r.pc \in {"done", "failed"} \/ (r.pc = "open" /\ r.mkf) THEN "" ELSE "end.pc"
            \* the process may be killed at any boundary, also after the last operation but before
            \* control is back at the caller (pc done / failed, not yet returned)
            [] e.op = "crash" -> IF r.pc = "dead" THEN "crash.pc" ELSE ""
@@ -119,11 +125,12 @@ Apply(st0, e) ==
     IN CASE e.op = "mkdir" ->
               \* Path.mkdir(exist_ok=True) ignores any OSError when the directory is there
               IF flt /\ ~st.dir THEN SetW(st, w, [r EXCEPT !.pc = "failed", !.err = "os"])
-              ELSE [SetW(st, w, [r EXCEPT !.pc = "open", !.i = 1]) EXCEPT !.dir = TRUE]
+              ELSE IF flt THEN SetW(st, w, [r EXCEPT !.pc = "open", !.mkf = TRUE])
+              ELSE [SetW(st, w, [r EXCEPT !.pc = "open"]) EXCEPT !.dir = TRUE]
          [] e.op = "open" ->
               IF flt THEN SetW(st, w, [r EXCEPT !.pc = "failed", !.err = "os"])
-              ELSE IF e.res = "exists" THEN SetW(st, w, [r EXCEPT !.i = @ + 1])
-              ELSE [SetW(st, w, [r EXCEPT !.pc = "body"])
+              ELSE IF e.res = "exists" THEN SetW(st, w, [r EXCEPT !.pc = "open", !.tried = @ \cup {e.i}])
+              ELSE [SetW(st, w, [r EXCEPT !.pc = "body", !.i = e.i])
                         EXCEPT !.tmp = AddTmp(@, e.i, [owner |-> w, data |-> FALSE])]
          [] e.op = "bcall" -> SetW(st, w, [r EXCEPT !.acc = @ + e.n])
          [] e.op = "write" ->
@@ -146,7 +153,7 @@ Apply(st0, e) ==
          [] e.op = "unlink" ->
               IF flt THEN SetW(st, w, [r EXCEPT !.pc = "failed", !.leak = TRUE])
               ELSE [SetW(st, w, [r EXCEPT !.pc = "failed"]) EXCEPT !.tmp = DelTmp(@, r.i)]
-         [] e.op = "end" -> SetW(st, w, [r EXCEPT !.ret = TRUE])
+         [] e.op = "end" -> SetW(st, w, [r EXCEPT !.ret = TRUE, !.pc = IF @ = "open" THEN "failed" ELSE @])
          [] e.op = "crash" -> SetW(st, w, [r EXCEPT !.pc = "dead"])
          \* a new round: the scan for a free temp name starts again at 1; a temp this writer could not
          \* unlink in an earlier round is from now on just a file lying around
